@@ -127,12 +127,59 @@ class SimpleDop:
 
 
 @dataclass
+class LinkedDtcDop:
+    """LINKED-DTC-DOP: the DTCs of `dop` (its effective list, i.e. including what it inherits itself) are inherited, except
+    those named in NOT-INHERITED-DTC-SNREFS and those whose short name the inheriting DTC-DOP already has"""
+    dop: "DtcDop"
+    not_inherited: List[str] = field(default_factory=list)
+
+
+@dataclass
 class DtcDop:
+    """`dtcs`: DTC children of DTCS; `dtc_refs`: DTC-REF children of DTCS (the DTC lives in the DTCS of `owner`, which is
+    emitted into the same layer; listed behind the DTC children); `linked`: LINKED-DTC-DOPS; `lib_first`: the DTC-DOPs this one
+    refers to precede (True) / follow (False / None) it in the DTC-DOPS section of the document"""
     dct: Dct
     phys: str
     compu: Compu
     dtcs: List[Tuple[int, str]]         # (trouble code, short name)
+    dtc_refs: Optional[List[Tuple["DtcDop", str]]] = None      # (owner, short name of one of the owner's own DTCs)
+    linked: Optional[List[LinkedDtcDop]] = None
+    lib_first: Optional[bool] = None
     tag = "dtc"
+
+
+def effective_dtcs(d: DtcDop, _depth=0) -> List[Tuple[int, str]]:
+    """(trouble code, short name) of every DTC a DTC-DOP describes (ISO 22901-1 7.3.6.4 / odxtools `DtcDop.dtcs` after
+    `Database.refresh()`): its DTC children, its DTC-REF children, then - per LINKED-DTC-DOP, in document order - the DTCs
+    of the linked DTC-DOP that are not NOT-INHERITED and whose short name is not present yet (local DTCs are not overwritten)"""
+    if _depth > 8:
+        raise ValueError("cyclic LINKED-DTC-DOPS")
+    out = list(d.dtcs)
+    for owner, name in (d.dtc_refs or []):
+        out.append(next((c, n) for c, n in owner.dtcs if n == name))
+    names = {n for _, n in out}
+    for l in (d.linked or []):
+        for c, n in effective_dtcs(l.dop, _depth + 1):
+            if n in names or n in l.not_inherited:
+                continue
+            out.append((c, n))
+            names.add(n)
+    return out
+
+
+def dtc_sources(d: DtcDop) -> List[str]:
+    """how the DTC-DOP obtains its DTCs (feature names)"""
+    f = []
+    if d.dtc_refs:
+        f.append("dtc-ref")
+    if d.linked:
+        f.append("linked-dtc-dop")
+        if any(l.not_inherited for l in d.linked):
+            f.append("not-inherited-dtc")
+        if any(l.dop.linked for l in d.linked):
+            f.append("linked-dtc-dop-chain")
+    return f
 
 
 @dataclass
